@@ -21,6 +21,15 @@ pub trait Spec {
     fn name() -> String where Self: Sized { std::any::type_name::<Self>().replace("alloc::", "").replace("std::", "").replace("core::", "").replace("string::", "").replace("vec::", "").replace("boxed::", "") }
 }
 
+/// user-defined leaf types: a zero-sized handle that owns memory elsewhere (e.g. a page of a global arena), and a
+/// type with an arbitrary declared heap size. The laws of C08 hold for any HeapSize leaf, not only for std types.
+pub struct ZstHeap;
+impl HeapSize for ZstHeap { fn heap_size(&self) -> usize { 4096 } }
+impl Spec for ZstHeap { fn spec_heap(&self) -> u128 { 4096 } }
+pub struct Declared(pub u32);
+impl HeapSize for Declared { fn heap_size(&self) -> usize { self.0 as usize } }
+impl Spec for Declared { fn spec_heap(&self) -> u128 { self.0 as u128 } }
+
 macro_rules! leaf { ($($t:ty),*) => { $( impl Spec for $t { fn spec_heap(&self) -> u128 { 0 } } )* } }
 leaf!((), u8, u16, u32, u64, u128, usize, i8, i16, i32, i64, f32, f64, bool, char, str, CStr, Path, std::ffi::OsStr,
       std::time::Duration, std::cmp::Ordering, std::net::Ipv4Addr, std::num::NonZeroU32, std::ops::RangeFull, std::collections::hash_map::RandomState);
